@@ -455,6 +455,9 @@ EXPLANATION = (
     "lookup. Decides the mechanism; does not decide that resolver ids and dynamic activations coincide for every program "
     "(temporal order: a hoisted function can run before an enclosing declaration, reported under C06-R5)."
 )
+EXPLANATION += (
+    " Added after seeded changes were missed: R3 an insertion into a pointer-keyed binding table is skipped only when ptr::eq says that very node is already there; R5b after a successful lexical lookup the binding is recorded on every path (not only for some owners); R5c bound_expr_local is asked about the Expr::Var node itself, and flatten_index_target returns that node with its name."
+)
 ASSUMPTIONS = ["the AST node address identifies the node (arena-allocated, never moved)"]
 TRUSTED = ["rustc nightly MIR", "nsx exporter", "nsverif edge-dominance"]
 NONTRIVIAL = "one obligation per keyed accessor call site, traversal, table, pairing and record/consume pair"
